@@ -197,6 +197,17 @@ def run_impl(t, edits=None):
         return None, f"evaluate.tree raised {type(e).__name__}: {e}"
     if ws[0] is not sentinel:
         return None, "earlier entries of the warnings list were disturbed"
+    # the same tree evaluated once more into the SAME list: what is appended depends on the tree, not on what the list already holds
+    first = list(ws)
+    try:
+        impl.limited(evaluate.tree, root, ws)
+    except Exception as e:
+        return None, f"a second evaluate.tree into the same list raised {type(e).__name__}: {e}"
+    if ws[:len(first)] != first:
+        return None, "earlier entries of the warnings list were disturbed by a second evaluation"
+    if ws[len(first):] != first[1:]:
+        return None, f"a second evaluation of the same tree into the same list appended {len(ws) - len(first)} entries, the first one {len(first) - 1}: the appended warnings depend on the list's earlier contents"
+    del ws[len(first):]
     out = []
     for w in ws[1:]:
         ok = isinstance(w, tuple) and len(w) == 3 and isinstance(w[0], EvaluationWarning) and isinstance(w[1], str) and isinstance(w[2], Node) and id(w[2]) in pmap
